@@ -101,7 +101,7 @@ func Check_EndToEnd() {
 // to other fields.
 func Check_MaxMessage() {
 	k := []common.Kind{common.KString, common.KOctetVar}[sx.Choose("kind", 2)]
-	L := []int{65512, 65511, 254, 255, 256, 65000}[sx.Choose("len", 6)]
+	L := []int{65512, 65511, 254, 255, 256, 65000, 4073, 4074, 5000}[sx.Choose("len", 9)]
 	domain := sx.U32("domain")
 	conn := &common.FakeConn{}
 	ep := exporter.VerifNewExportingProcess(conn, domain)
@@ -115,10 +115,26 @@ func Check_MaxMessage() {
 	n, err := ep.SendSet(common.DataSet(tplID, recs))
 	sx.Assert(err == nil, "data-send")
 	sx.Assert(n == 16+4+3+L || (L < 255 && n == 16+4+1+L), "message-size")
-	_, err = cp.VerifDecodePacket(conn.Writes[0], "1.2.3.4:5")
-	sx.Assert(err == nil, "template-delivered")
-	md, err := cp.VerifDecodePacket(conn.Writes[1], "1.2.3.4:5")
-	sx.Assert(err == nil, "data-delivered")
+	var md *entities.Message
+	if sx.Choose("transport", 2) == 0 {
+		_, err = cp.VerifDecodePacket(conn.Writes[0], "1.2.3.4:5")
+		sx.Assert(err == nil, "template-delivered")
+		md, err = cp.VerifDecodePacket(conn.Writes[1], "1.2.3.4:5")
+		sx.Assert(err == nil, "data-delivered")
+	} else {
+		// the same bytes as one TCP stream through the real connection handler
+		// (framing by the header's length field, bufio reader), followed by a
+		// second copy of the template message to see that framing survives
+		stream := append(append(append([]byte{}, conn.Writes[0]...), conn.Writes[1]...), conn.Writes[0]...)
+		in := &common.FakeConn{ReadData: stream, Remote: "1.2.3.4:5"}
+		cp.VerifHandleTCPClient(in)
+		sx.Assert(len(cp.GetMsgChan()) == 3, "tcp-stream-not-delivered-message-by-message")
+		<-cp.GetMsgChan()
+		md = <-cp.GetMsgChan()
+		last := <-cp.GetMsgChan()
+		sx.Assert(last.GetSet().GetSetType() == entities.Template, "tcp-framing-lost-after-large-message")
+		sx.Reach("over-tcp")
+	}
 	checkData(md, recs, tplID)
 	if L == 65512 {
 		sx.Reach("max-size")
